@@ -201,6 +201,7 @@ class BlockNode(Node):
                     parent=stack_item.parent,
                 )
             },
+            disabled_tags=context.disabled_tags,
             carry_loop_iterations=True,
             block_scope=True,
         )
@@ -254,6 +255,7 @@ class BlockNode(Node):
                     parent=stack_item.parent,
                 )
             },
+            disabled_tags=context.disabled_tags,
             carry_loop_iterations=True,
             block_scope=True,
         )
